@@ -422,14 +422,17 @@ func c18Random(rng *rand.Rand, n int, _ []string) {
 	// names are rendered: the second one generated after the first in this process must equal the second one
 	// generated alone in a fresh process
 	pairs := n/4 + 1
+	skippedPairs := 0
 	for i := 0; i < pairs; i++ {
 		a, b := c18PairTM(rng)
 		alone := c18Sub("-", b, []int{1, 2, 8}[rng.Intn(3)])
 		out := sx.List("same", sx.Int(0))
 		if _, err := c18GenText(a); err != nil || alone == "error" || alone == "crash" {
-			out = sx.List("differs", sx.List("pair-does-not-generate"))
+			skippedPairs++ // a grammar of the pair is rejected or crashes the generator (C22's business): not a case
+			continue
 		} else if files, err := c18GenText(b); err != nil {
-			out = sx.List("differs", sx.List("pair-does-not-generate"))
+			skippedPairs++
+			continue
 		} else if digest(files) != alone {
 			out = sx.List("differs", sx.List("depends-on-earlier-generation"))
 		} else {
@@ -440,6 +443,7 @@ func c18Random(rng *rand.Rand, n int, _ []string) {
 	sx.Stat("grammars_tried", tried)
 	sx.Stat("grammars_skipped_because_generation_crashed", crashed)
 	sx.Stat("grammar_pairs", pairs)
+	sx.Stat("grammar_pairs_skipped_because_one_does_not_generate", skippedPairs)
 }
 
 func c18PairTM(rng *rand.Rand) (string, string) {
@@ -494,7 +498,7 @@ block -> %s:
 			sb.WriteString("reportTokens = [id, num]\n")
 		}
 		if rng.Intn(3) == 0 {
-			sb.WriteString("extraTypes = [\"Extra\", \"More -> Decl\"]\n")
+			sb.WriteString("extraTypes = [\"Extra\", \"More\"]\n")
 		}
 		if rng.Intn(4) == 0 {
 			sb.WriteString("tokenLine = false\n")
